@@ -466,6 +466,8 @@ func (pConn *PFCPConn) handleSessionDeletionRequest(msg message.Message) (messag
 		return sendError(ErrOperationFailedWithReason("session IP dealloc", err.Error()))
 	}
 
+	releaseAllocatedTEIDs(upf.fteidGenerator, &session)
+
 	/* delete sessionRecord */
 	pConn.RemoveSession(session)
 
@@ -560,6 +562,11 @@ func (pConn *PFCPConn) handleSessionReportResponse(msg message.Message) error {
 
 		logger.PfcpLog.Warnln("context not found, deleting session locally")
 
+		if err := releaseAllocatedIPs(upf.ippool, &sessItem); err != nil {
+			logger.PfcpLog.Errorln("session IP dealloc failed:", err)
+		}
+
+		releaseAllocatedTEIDs(upf.fteidGenerator, &sessItem)
 		pConn.RemoveSession(sessItem)
 
 		cause := upf.SendMsgToUPF(
